@@ -1,6 +1,6 @@
 /-
-  Property C09 — PLACEHOLDER while the full theorem file (see /verif/lean/stmts) is being proved:
-  only the rollback clause is here.  Replaced by the complete file as soon as it checks.
+  Property C09 — rotations are rate-limited unless the operator bypasses the delay.
+  Statements are FIXED: prove them exactly as stated (helper lemmas go above them or in Cgp/Proofs/C09.lean).
 -/
 import Cgp.GatewaySpec
 namespace Cgp.Props.C09
@@ -8,10 +8,324 @@ open Cgp Cgp.Xdr Cgp.Gateway
 
 variable (H : Bytes → Bytes) {σ : Type} (V : Bytes → Bytes → σ → Bool)
 
-theorem failed_rotation_keeps_clock (w : World) (auths : List Addr) (ws : WSigners) (proof : Proof σ) (bypass : Bool) (e : Err)
-    (h : (step H V w (.rotate auths ws proof bypass)).2 = .err e) :
-    (step H V w (.rotate auths ws proof bypass)).1 = w := by
-  simp only [step] at h ⊢
-  split <;> simp_all
+
+/-! ### helper lemmas -/
+
+theorem inner_ok (st : State) (ws : WSigners) (enforce : Bool) (now : Nat) (r : State × Event)
+    (h : rotateSignersInner H st ws enforce now = .ok r) :
+    r.1.lastRot = some now ∧ r.1.minDelay = st.minDelay ∧ r.1.operator = st.operator ∧
+    (enforce = true → st.lastRot.getD 0 ≤ now ∧ st.minDelay ≤ now - st.lastRot.getD 0) := by
+  unfold rotateSignersInner at h
+  split at h
+  · cases h
+  · simp only at h
+    split at h
+    · cases h
+    · split at h
+      · cases h
+      · split at h
+        · cases h
+        · cases h
+          refine ⟨rfl, rfl, rfl, ?_⟩
+          intro he
+          subst he
+          simp_all
+
+theorem inner_false_ok_iff (st : State) (ws : WSigners) (now : Nat) :
+    (∃ r, rotateSignersInner H st ws false now = .ok r) ↔
+    (validateSigners ws = .ok () ∧ (st.epochByHash (signersHash H ws)).isSome = false) := by
+  unfold rotateSignersInner
+  split
+  · rename_i e he
+    simp [he]
+  · rename_i he
+    simp only [he, Bool.false_eq_true, false_and, if_false, true_and]
+    cases hd : (st.epochByHash (signersHash H ws)).isSome <;> simp
+
+theorem rotate_ok_inv (st : State) (auths : List Addr) (ws : WSigners) (proof : Proof σ) (bypass : Bool) (now : Nat)
+    (r : State × List Event) (h : rotateSigners H V st auths ws proof bypass now = .ok r) :
+    (bypass = true → st.operator ∈ auths) ∧
+    ∃ ev, rotateSignersInner H st ws (!bypass) now = .ok (r.1, ev) := by
+  unfold rotateSigners at h
+  split at h
+  · cases h
+  · rename_i hb
+    split at h
+    · cases h
+    · split at h
+      · cases h
+      · split at h
+        · cases h
+        · rename_i st' ev hin
+          cases h
+          refine ⟨?_, ev, hin⟩
+          intro hb'
+          subst hb'
+          simpa using hb
+
+theorem approveLoop_pres (ms : List Message) (st : State) :
+    (approveLoop H ms st).1.lastRot = st.lastRot ∧ (approveLoop H ms st).1.minDelay = st.minDelay ∧
+    (approveLoop H ms st).1.operator = st.operator := by
+  induction ms generalizing st with
+  | nil => simp [approveLoop]
+  | cons m rest ih =>
+    unfold approveLoop
+    split
+    · exact ih st
+    · simp only
+      have := ih { st with approvals := fun c i =>
+        if c = m.sourceChain ∧ i = m.messageId then .approved (messageHash H m) else st.approvals c i }
+      simpa using this
+
+theorem rotate_true_ok_iff (st : State) (auths : List Addr) (ws : WSigners) (proof : Proof σ) (now : Nat) :
+    (∃ r, rotateSigners H V st auths ws proof true now = .ok r) ↔
+    (st.operator ∈ auths ∧ (∃ b, validateProof H V st (rotateDataHash H ws) proof = .ok b) ∧
+      ∃ r, rotateSignersInner H st ws false now = .ok r) := by
+  unfold rotateSigners
+  by_cases hop : st.operator ∈ auths
+  · simp only [hop, not_true_eq_false, and_false, if_false, true_and, Bool.true_or, Bool.not_true,
+      Bool.false_eq_true]
+    cases hv : validateProof H V st (rotateDataHash H ws) proof with
+    | error e => simp
+    | ok b =>
+      cases hin : rotateSignersInner H st ws false now with
+      | error e => simp
+      | ok r => simp
+  · simp [hop]
+
+theorem initSets_inv (now : Nat) (sets : List WSigners) (st : State) (r : State × List Event)
+    (h : initSets H now sets st = .ok r) :
+    r.1.minDelay = st.minDelay ∧ (r.1.lastRot = some now ∨ (sets = [] ∧ r.1.lastRot = st.lastRot)) := by
+  induction sets generalizing st r with
+  | nil =>
+    simp only [initSets] at h
+    cases h
+    simp
+  | cons ws rest ih =>
+    unfold initSets at h
+    split at h
+    · cases h
+    · rename_i st' ev hin
+      split at h
+      · cases h
+      · rename_i st'' evs hrest
+        cases h
+        have h1 := inner_ok H st ws false now _ hin
+        have h2 := ih st' _ hrest
+        refine ⟨by simp only at h1 h2 ⊢; rw [h2.1, h1.2.1], Or.inl ?_⟩
+        rcases h2.2 with h3 | ⟨_, h3⟩
+        · exact h3
+        · simp only at h3 h1 ⊢; rw [h3, h1.1]
+
+theorem approveMessages_pres (st : State) (ms : List Message) (proof : Proof σ) (r : State × List Event)
+    (h : approveMessages H V st ms proof = .ok r) :
+    r.1.lastRot = st.lastRot ∧ r.1.minDelay = st.minDelay ∧ r.1.operator = st.operator := by
+  unfold approveMessages at h
+  split at h
+  · cases h
+  · split at h
+    · cases h
+    · cases h
+      exact approveLoop_pres H ms st
+
+theorem validateMessage_pres (st : State) (auths : List Addr) (caller : Addr) (chain id src ph : Bytes)
+    (r : State × Bool × List Event) (h : validateMessage H st auths caller chain id src ph = .ok r) :
+    r.1.lastRot = st.lastRot ∧ r.1.minDelay = st.minDelay ∧ r.1.operator = st.operator := by
+  unfold validateMessage at h
+  split at h
+  · cases h
+  · simp only at h
+    split at h
+    · cases h; exact ⟨rfl, rfl, rfl⟩
+    · cases h; exact ⟨rfl, rfl, rfl⟩
+
+theorem callContract_pres (st : State) (auths : List Addr) (caller : Addr) (chain dest payload : Bytes)
+    (r : State × List Event) (h : callContract H st auths caller chain dest payload = .ok r) :
+    r.1 = st := by
+  unfold callContract at h
+  split at h
+  · cases h
+  · cases h; rfl
+
+theorem transferOwnership_pres (st : State) (auths : List Addr) (new : Addr)
+    (r : State × List Event) (h : transferOwnership st auths new = .ok r) :
+    r.1.lastRot = st.lastRot ∧ r.1.minDelay = st.minDelay ∧ r.1.operator = st.operator := by
+  unfold transferOwnership at h
+  split at h
+  · cases h
+  · cases h; exact ⟨rfl, rfl, rfl⟩
+
+theorem transferOperatorship_pres (st : State) (auths : List Addr) (new : Addr)
+    (r : State × List Event) (h : transferOperatorship st auths new = .ok r) :
+    r.1.lastRot = st.lastRot ∧ r.1.minDelay = st.minDelay ∧ st.operator ∈ auths ∧ r.1.operator = new := by
+  unfold transferOperatorship at h
+  split at h
+  · cases h
+  · rename_i hop
+    cases h; exact ⟨rfl, rfl, by simpa using hop, rfl⟩
+
+theorem rotate_pres (st : State) (auths : List Addr) (ws : WSigners) (proof : Proof σ) (bypass : Bool) (now : Nat)
+    (r : State × List Event) (h : rotateSigners H V st auths ws proof bypass now = .ok r) :
+    r.1.lastRot = some now ∧ r.1.minDelay = st.minDelay ∧ r.1.operator = st.operator := by
+  obtain ⟨_, ev, hin⟩ := rotate_ok_inv H V st auths ws proof bypass now _ h
+  have := inner_ok H st ws _ now _ hin
+  exact ⟨this.1, this.2.1, this.2.2.1⟩
+
+/-- a non-bypass rotation succeeds only if at least `minDelay` has elapsed since the recorded last rotation -/
+theorem nonbypass_delay (st : State) (auths : List Addr) (ws : WSigners) (proof : Proof σ) (now : Nat)
+    (r : State × List Event) (h : rotateSigners H V st auths ws proof false now = .ok r) :
+    st.lastRot.getD 0 ≤ now ∧ st.minDelay ≤ now - st.lastRot.getD 0 := by
+  obtain ⟨_, ev, hin⟩ := rotate_ok_inv H V st auths ws proof false now r h
+  exact (inner_ok H st ws _ now _ hin).2.2.2 rfl
+
+/-- a bypass rotation needs the current operator's authorisation -/
+theorem bypass_needs_operator (st : State) (auths : List Addr) (ws : WSigners) (proof : Proof σ) (now : Nat)
+    (r : State × List Event) (h : rotateSigners H V st auths ws proof true now = .ok r) :
+    st.operator ∈ auths := by
+  exact (rotate_ok_inv H V st auths ws proof true now r h).1 rfl
+
+/-- a bypass rotation ignores the clock entirely: its outcome's success does not depend on `now` -/
+theorem bypass_ignores_delay (st : State) (auths : List Addr) (ws : WSigners) (proof : Proof σ) (now now' : Nat) :
+    (∃ r, rotateSigners H V st auths ws proof true now = .ok r) ↔
+    (∃ r, rotateSigners H V st auths ws proof true now' = .ok r) := by
+  rw [rotate_true_ok_iff, rotate_true_ok_iff, inner_false_ok_iff, inner_false_ok_iff]
+
+/-- every successful rotation, bypass or not, restarts the clock at the current time -/
+theorem success_restarts_clock (st st' : State) (auths : List Addr) (ws : WSigners) (proof : Proof σ) (bypass : Bool)
+    (now : Nat) (evs : List Event) (h : rotateSigners H V st auths ws proof bypass now = .ok (st', evs)) :
+    st'.lastRot = some now := by
+  obtain ⟨_, ev, hin⟩ := rotate_ok_inv H V st auths ws proof bypass now _ h
+  exact (inner_ok H st ws _ now _ hin).1
+
+/-- deployment counts as a rotation: after construction the clock reads the construction time -/
+theorem construct_starts_clock (owner operator : Addr) (domain : Bytes) (minDelay retention : Nat) (sets : List WSigners)
+    (now : Nat) (st : State) (evs : List Event)
+    (h : construct H owner operator domain minDelay retention sets now = .ok (st, evs)) :
+    st.lastRot = some now ∧ st.minDelay = minDelay := by
+  unfold construct at h
+  split at h
+  · cases h
+  · rename_i hne
+    have := initSets_inv H now sets _ _ h
+    refine ⟨?_, this.1⟩
+    rcases this.2 with h1 | ⟨h1, _⟩
+    · exact h1
+    · subst h1; simp at hne
+
+/-- the time of the most recent successful rotation in a history (or `t0` if none) -/
+def lastSuccess (t0 now0 : Nat) : List (Op σ) → List Obs → Nat × Nat   -- (last success time, current clock)
+  | (.rotate _ _ _ _) :: ops, (.ok _) :: os => lastSuccess now0 now0 ops os
+  | (.setTime t) :: ops, _ :: os => lastSuccess t0 t ops os
+  | _ :: ops, _ :: os => lastSuccess t0 now0 ops os
+  | _, _ => (t0, now0)
+
+theorem step_clock (w : World) (op : Op σ) (t0 : Nat) (h0 : w.st.lastRot = some t0) :
+    ∃ t, (step H V w op).1.st.lastRot = some t ∧ (step H V w op).1.st.minDelay = w.st.minDelay ∧
+      ∀ ops os, lastSuccess t0 w.now (op :: ops) ((step H V w op).2 :: os) =
+        lastSuccess t (step H V w op).1.now ops os := by
+  cases op with
+  | approve ms proof =>
+    simp only [step]
+    cases hr : approveMessages H V w.st ms proof with
+    | error e => exact ⟨t0, h0, rfl, fun ops os => by simp [lastSuccess]⟩
+    | ok r =>
+      have := approveMessages_pres H V _ _ _ _ hr
+      exact ⟨t0, by simp only; rw [this.1, h0], this.2.1, fun ops os => by simp [lastSuccess]⟩
+  | rotate auths ws proof bypass =>
+    simp only [step]
+    cases hr : rotateSigners H V w.st auths ws proof bypass w.now with
+    | error e => exact ⟨t0, h0, rfl, fun ops os => by simp [lastSuccess]⟩
+    | ok r =>
+      have := rotate_pres H V _ _ _ _ _ _ _ hr
+      exact ⟨w.now, this.1, this.2.1, fun ops os => by simp [lastSuccess]⟩
+  | validateMessage auths caller chain id src ph =>
+    simp only [step]
+    cases hr : Gateway.validateMessage H w.st auths caller chain id src ph with
+    | error e => exact ⟨t0, h0, rfl, fun ops os => by simp [lastSuccess]⟩
+    | ok r =>
+      have := validateMessage_pres H _ _ _ _ _ _ _ _ hr
+      exact ⟨t0, by simp only; rw [this.1, h0], this.2.1, fun ops os => by simp [lastSuccess]⟩
+  | callContract auths caller chain dest payload =>
+    simp only [step]
+    cases hr : Gateway.callContract H w.st auths caller chain dest payload with
+    | error e => exact ⟨t0, h0, rfl, fun ops os => by simp [lastSuccess]⟩
+    | ok r =>
+      have := callContract_pres H _ _ _ _ _ _ _ hr
+      exact ⟨t0, by simp only; rw [this, h0], by simp only; rw [this], fun ops os => by simp [lastSuccess]⟩
+  | transferOwnership auths new =>
+    simp only [step]
+    cases hr : Gateway.transferOwnership w.st auths new with
+    | error e => exact ⟨t0, h0, rfl, fun ops os => by simp [lastSuccess]⟩
+    | ok r =>
+      have := transferOwnership_pres _ _ _ _ hr
+      exact ⟨t0, by simp only; rw [this.1, h0], this.2.1, fun ops os => by simp [lastSuccess]⟩
+  | transferOperatorship auths new =>
+    simp only [step]
+    cases hr : Gateway.transferOperatorship w.st auths new with
+    | error e => exact ⟨t0, h0, rfl, fun ops os => by simp [lastSuccess]⟩
+    | ok r =>
+      have := transferOperatorship_pres _ _ _ _ hr
+      exact ⟨t0, by simp only; rw [this.1, h0], this.2.1, fun ops os => by simp [lastSuccess]⟩
+  | setTime t =>
+    exact ⟨t0, h0, rfl, fun ops os => by simp [step, lastSuccess]⟩
+
+theorem run_cons (w : World) (op : Op σ) (ops : List (Op σ)) :
+    run H V w (op :: ops) =
+      ((run H V (step H V w op).1 ops).1, (step H V w op).2 :: (run H V (step H V w op).1 ops).2) := rfl
+
+/-- **history invariant**: the recorded clock always equals the time of the most recent successful rotation of any
+    kind (deployment counting as one); failed rotations, approvals, and everything else never move it. -/
+theorem clock_is_last_success (w : World) (ops : List (Op σ)) (t0 : Nat) (h0 : w.st.lastRot = some t0) :
+    (run H V w ops).1.st.lastRot = some (lastSuccess t0 w.now ops (run H V w ops).2).1 ∧
+    (run H V w ops).1.now = (lastSuccess t0 w.now ops (run H V w ops).2).2 ∧
+    (run H V w ops).1.st.minDelay = w.st.minDelay := by
+  induction ops generalizing w t0 with
+  | nil => exact ⟨h0, rfl, rfl⟩
+  | cons op ops ih =>
+    obtain ⟨t, h1, h2, h3⟩ := step_clock H V w op t0 h0
+    have := ih (step H V w op).1 t h1
+    rw [run_cons]
+    simp only
+    rw [h3]
+    exact ⟨this.1, this.2.1, by rw [this.2.2, h2]⟩
+
+/-- the operator role changes only through a transfer authorised by the current operator -/
+theorem operator_step (w : World) (op : Op σ) :
+    (step H V w op).1.st.operator = w.st.operator ∨
+    (∃ auths new, op = .transferOperatorship auths new ∧ w.st.operator ∈ auths ∧ (step H V w op).1.st.operator = new) := by
+  cases op with
+  | approve ms proof =>
+    left; simp only [step]
+    cases hr : approveMessages H V w.st ms proof with
+    | error e => rfl
+    | ok r => exact (approveMessages_pres H V _ _ _ _ hr).2.2
+  | rotate auths ws proof bypass =>
+    left; simp only [step]
+    cases hr : rotateSigners H V w.st auths ws proof bypass w.now with
+    | error e => rfl
+    | ok r => exact (rotate_pres H V _ _ _ _ _ _ _ hr).2.2
+  | validateMessage auths caller chain id src ph =>
+    left; simp only [step]
+    cases hr : Gateway.validateMessage H w.st auths caller chain id src ph with
+    | error e => rfl
+    | ok r => exact (validateMessage_pres H _ _ _ _ _ _ _ _ hr).2.2
+  | callContract auths caller chain dest payload =>
+    left; simp only [step]
+    cases hr : Gateway.callContract H w.st auths caller chain dest payload with
+    | error e => rfl
+    | ok r => simp only; rw [callContract_pres H _ _ _ _ _ _ _ hr]
+  | transferOwnership auths new =>
+    left; simp only [step]
+    cases hr : Gateway.transferOwnership w.st auths new with
+    | error e => rfl
+    | ok r => exact (transferOwnership_pres _ _ _ _ hr).2.2
+  | transferOperatorship auths new =>
+    simp only [step]
+    cases hr : Gateway.transferOperatorship w.st auths new with
+    | error e => left; rfl
+    | ok r =>
+      have := transferOperatorship_pres _ _ _ _ hr
+      exact Or.inr ⟨auths, new, rfl, this.2.2.1, this.2.2.2⟩
+  | setTime t => left; rfl
 
 end Cgp.Props.C09
